@@ -59,6 +59,7 @@ def c02():
         ("C02_demux_then_mux", "mux_demux", None),
         ("C02_mux_demux_adjoint", "mux_adjoint", None),
         ("C02_chain_of_components_example", "def_mesh_group_DR", "chain rule: a derivative theorem of C01 takes ARBITRARY differentiable input curves, so it applies to the outputs of upstream components; e.g. nodes -> transformation matrix -> deformed mesh"),
+        ("C02_chain_VLMStates_to_linear_system", "chain_residual_DR", "the whole VLMStates wiring up to the linear system (deformed mesh, alpha, beta, v, circulations -> residual of the aerodynamic system) composed from the component theorems; any panel count"),
     ]
     gen("C02.v", "C02 - coupled total derivatives are correct and identical in forward and reverse mode.  Property theorems only (statements printed by Coq from Real/AdjointProofs.v, BeamProofs.v, ComposeProofs.v, *Deriv.v)", imports, items)
 
@@ -169,6 +170,7 @@ if __name__ == "__main__":
             ("C01_VLMMtxRHSComp_mtx", "aic_mtx_DR", None),
             ("C01_VLMMtxRHSComp_rhs", "aic_rhs_DR", None),
             ("C01_SolveMatrix_residual", "solve_residual_DR", "implicit component: the linearisation of the residual"),
+            ("C01_VLMStates_chain_to_residual", "chain_residual_DR", "the composed wiring mesh -> vectors -> influence matrix, right-hand side -> residual"),
             ("C01_HorseshoeCirculations", "horseshoe_DR", None),
             ("C01_EvalVelocities", "eval_velocity_DR", None),
             ("C01_PanelForces", "panel_force_DR", None),
